@@ -206,14 +206,18 @@ def Phase.isForwarding : Phase → Bool
 def stepWrite (s : St) (k : Key) : St := { s with evs := s.evs ++ [(k, cur s.evs k + 1)] }
 
 /-- `Watch(ctx, ch, opts…)` returns after registering the listener (when the code registers first). -/
+def newWatcher (cfg : Cfg) (evs : List Ev) (key : Option Key) (replay : Bool) : Watcher :=
+  { key := key, replay := replay, phase := if replay then .replayRead else .loop,
+    registered := cfg.registerFirst || !replay, regAt := evs.length }
+
 def stepWatch (cfg : Cfg) (s : St) (key : Option Key) (replay : Bool) : St :=
-  let w : Watcher := { key := key, replay := replay, phase := if replay then .replayRead else .loop,
-                       registered := cfg.registerFirst || !replay, regAt := s.evs.length }
-  { s with ws := s.ws ++ [w] }
+  { s with ws := s.ws ++ [newWatcher cfg s.evs key replay] }
 
 /-- own-stream stores: the primitive appends the event to the stream of every listener that covers it. -/
-def enqueue (ws : List Watcher) (e : Ev) : List Watcher :=
-  ws.map (fun w => if w.registered && covers w e.1 then { w with queue := w.queue ++ [e] } else w)
+def enq1 (e : Ev) (w : Watcher) : Watcher :=
+  if w.registered && covers w e.1 then { w with queue := w.queue ++ [e] } else w
+
+def enqueue (ws : List Watcher) (e : Ev) : List Watcher := ws.map (enq1 e)
 
 /-- the dispatcher takes the next event and copies the listeners that cover it
     (own-stream stores: the event goes to every listener's private stream; nothing can block). -/
@@ -258,7 +262,9 @@ def stepReplayRead (s : St) (i : Nat) : Option St :=
   | some w =>
     if w.phase = .replayRead then
       let snap := snapshot w s.evs
-      some (setW s i { w with phase := if snap.isEmpty then .loop else .replaying snap, registered := true })
+      -- code that registers only after the replay (registerFirst = false) does so on entering the forward loop
+      some (setW s i { w with phase := if snap.isEmpty then .loop else .replaying snap,
+                              registered := w.registered || snap.isEmpty })
     else none
 
 /-- a send to the consumer completes (the consumer is receiving). -/
@@ -268,9 +274,10 @@ def stepDeliver (s : St) (i : Nat) : Option St :=
   | some w =>
     if w.reading then
       match w.phase with
-      | .replaying [] => some (setW s i { w with phase := .loop })
+      | .replaying [] => some (setW s i { w with phase := .loop, registered := true })
       | .replaying (e :: rest) =>
-        some (setW s i { w with delivered := w.delivered ++ [e], phase := if rest.isEmpty then .loop else .replaying rest })
+        some (setW s i { w with delivered := w.delivered ++ [e], phase := if rest.isEmpty then .loop else .replaying rest,
+                                registered := w.registered || rest.isEmpty })
       | .forwarding e => some (setW s i { w with delivered := w.delivered ++ [e], phase := .loop })
       | _ => none
     else none
